@@ -65,6 +65,10 @@ def _safe_deepcopy(value: Any, param_name: str = "<unknown>") -> Any:
     Raises:
         GraphConfigError: If value cannot be deep-copied
     """
+    if type(value) is object:
+        # A bare object() is the usual identity sentinel (``_MISSING = object()``):
+        # it has no state a run could change, and a copy would defeat ``x is _MISSING``
+        return value
     try:
         return copy.deepcopy(value)
     except (TypeError, copy.Error) as e:
